@@ -12,7 +12,7 @@ use vh::{Cell, Emitter, Rng, NULL_PATTERNS, null_mask, guarded, coq_f64, coq_lis
 fn series(rng: &mut Rng, len: usize) -> Vec<f64> {
     let pat = *rng.pick(&NULL_PATTERNS);
     let m = null_mask(rng, pat, len);
-    (0..len).map(|i| if m[i] { f64::NAN } else { rng.range(-12, 12) as f64 / 4.0 }).collect()
+    (0..len).map(|i| if m[i] { vh::nan_at(i) } else { rng.range(-12, 12) as f64 / 4.0 }).collect()
 }
 
 /// series for the backend matrix: mostly valid (a result that is null everywhere cannot tell two backends apart),
@@ -21,7 +21,7 @@ fn mseries(rng: &mut Rng, len: usize) -> Vec<f64> {
     let style = rng.below(10);
     (0..len).map(|i| {
         let null = match style { 0..=3 => false, 4..=7 => rng.chance(1, 7), 8 => i < len / 4, _ => i % 3 == 1 };
-        if null { f64::NAN } else { rng.range(-40, 40) as f64 / 4.0 }
+        if null { vh::nan_at(i) } else { rng.range(-40, 40) as f64 / 4.0 }
     }).collect()
 }
 
